@@ -62,6 +62,7 @@ class Cfg:
         self.win_no_arrange = False  # polars-only checks may use the frame order
         self.filter_kw = True
         self.null_lits = True
+        self.mixed_numeric = True  # integer arguments / branches inside Float-typed coalesce, fill_null, min/max, CASE
         self.str_join = True  # the ordered aggregate str.join (Polars only in this sandbox)
         self.math = False
         self.isin_empty = False  # x.is_in() without values (broadcast literal; see C03)
@@ -199,17 +200,19 @@ class ExprGen:
             return ["fn", self.pick(["neg", "pos"]), [g(fam)], {}]
         if o == "abs":
             return ["fn", "abs", [g(fam)], {}]
+        # a Float-typed n-ary call / CASE may have integer arguments as well (the common type is Float)
+        gm = (lambda: g("int") if self.chance(3) else g(fam)) if (fam == "float" and cfg.mixed_numeric) else (lambda: g(fam))
         if o == "fill":
-            return ["fn", "fill_null", [g(fam), g(fam)], {}]
+            return ["fn", "fill_null", [gm(), gm()], {}]
         if o == "coalesce":
             k = d(st.sampled_from(NARY))
-            args = [g(fam) for _ in range(k)]
+            args = [gm() for _ in range(k)]
             if cfg.null_lits and self.chance(2):
                 args.insert(d(st.integers(1, len(args))), ["lit", None])
             return ["fn", "coalesce", args, {}]
         if o == "hminmax":
             k = d(st.sampled_from(NARY))
-            return ["fn", self.pick(["hmax", "hmin"]), [g(fam) for _ in range(k)], {}]
+            return ["fn", self.pick(["hmax", "hmin"]), [gm() for _ in range(k)], {}]
         if o == "hsum":
             k = d(st.sampled_from(NARY))
             return ["fn", "hsum", [g(fam) for _ in range(k)], {}]
@@ -337,6 +340,8 @@ class ExprGen:
     def _branch_val(self, fam, g):
         if self.cfg.null_lits and self.chance(1):
             return ["lit", None]
+        if fam == "float" and self.cfg.mixed_numeric and self.chance(3):
+            return g("int")
         return g(fam)
 
     # ---- aggregates ----
